@@ -7,6 +7,7 @@ from mirlib.cfg import CFG
 from mirlib.dataflow import DefUse, base_local, typed_path
 from mirlib.program import norm_callee
 from mirlib.core import CheckerError
+from . import common
 from .common import calls_matching, where
 from .recovery import field_names
 from .tables import idents_in
@@ -212,7 +213,9 @@ def flw10_paths_from_sanitised_parts(ctx):
     # subpartition keys
     S = P.one('scheduler::inner_locustdb::subpartition')
     lits = []
-    for cb in [S] + P.closures_of(S):
+    key_pred = lambda n: n.endswith('is_filesystem_safe') or n.endswith('::finalize') or n.endswith('::update')
+    bodies = [common.inlined_anchor(P, cb, key_pred) for cb in [S] + P.closures_of(S)]
+    for cb in bodies:
         cb.parse()
         du = DefUse(cb)
         cfg = CFG(cb)
@@ -225,7 +228,21 @@ def flw10_paths_from_sanitised_parts(ctx):
                     k = base_local(m.group(1))
                     good = True
                     detail = []
-                    for d in du.defs.get(k, []):
+                    # leaf definitions of the key: look through plain moves (a helper's return
+                    # value arrives through `dest = move _ret`)
+                    leaves, seen_l, work = [], set(), [k]
+                    while work:
+                        x = work.pop()
+                        if x in seen_l:
+                            continue
+                        seen_l.add(x)
+                        for d in du.defs.get(x, []):
+                            mm = re.match(r'^(?:move|copy) _(\d+)$', d[2].rhs.strip()) if d[1] == 'stmt' else None
+                            if mm and du.defs.get(int(mm.group(1))):
+                                work.append(int(mm.group(1)))
+                            else:
+                                leaves.append(d)
+                    for d in leaves:
                         dbid, kind, obj = d
                         if kind == 'stmt' and not re.match(r'^(move|copy) ', obj.rhs):
                             continue
@@ -240,7 +257,9 @@ def flw10_paths_from_sanitised_parts(ctx):
                         elif any(c.endswith('ToString>::to_string') or c.endswith('str::to_string') for c in calls) and \
                                 'const "all"' in ' '.join(org['consts'] | {a for a in (obj.args if kind == 'term' else [])}):
                             detail.append('literal-all')
-                        elif any(c.endswith('Clone>::clone') for c in calls):
+                        elif any(c.endswith('Clone>::clone') or c.endswith('ToString>::to_string')
+                                 or c.endswith('str::to_string') or c.endswith('ToOwned>::to_owned')
+                                 or c.endswith('String::from') for c in calls):
                             # must be on the true edge of is_filesystem_safe
                             safe = calls_matching(cb, lambda n: n.endswith('is_filesystem_safe'))
                             okk = False
@@ -260,7 +279,7 @@ def flw10_paths_from_sanitised_parts(ctx):
     ctx.require(lits, 'FLW-10: subpartition() builds no SubpartitionMetadata')
     # the name that is tested, the name that is hashed and the name recorded as last_column of
     # the entry are one and the same value (per file), not state captured from outside
-    for cb in [S] + P.closures_of(S):
+    for cb in bodies:
         cb.parse()
         safe = calls_matching(cb, lambda n: n.endswith('is_filesystem_safe'))
         upd = calls_matching(cb, lambda n: n.endswith('::update'))
@@ -321,6 +340,23 @@ def ord8_routing_tables(ctx):
             key_ok = ('last_column' in idents_in(a0)) or any(x.get('member') == 'last_column' for x in walk(a0))
             idx_ok = a1.get('k') == 'path' or any(x.get('k') == 'mcall' and x['method'] == 'len' for x in walk(a1))
             good = good or (key_ok and idx_ok)
+        # or: built in one expression, `iter().enumerate().map(|(i, x)| (x.last_column.., i)).collect()`
+        for m in find(fn, 'mcall'):
+            if m['method'] != 'collect':
+                continue
+            chain = [x for x in walk(m['recv']) if isinstance(x, dict) and x.get('k') == 'mcall']
+            if not any(x['method'] == 'enumerate' for x in chain):
+                continue
+            for x in chain:
+                if x['method'] == 'map' and x['args'] and x['args'][0].get('k') == 'closure':
+                    body = x['args'][0].get('body') or {}
+                    if body.get('k') == 'block' and len(body.get('stmts', [])) == 1:
+                        body = body['stmts'][0]
+                    if body.get('k') == 'tuple' and len(body['elems']) == 2:
+                        a0, a1 = body['elems']
+                        key_ok = ('last_column' in idents_in(a0)) or any(y.get('member') == 'last_column' for y in walk(a0))
+                        if key_ok and a1.get('k') == 'path':
+                            good = True
         ctx.check('ORD-8', '%s|last-column-index' % qual, good,
                   'subpartitions_by_last_column maps last_column -> position of the file entry',
                   'src/%s' % f)
